@@ -87,6 +87,17 @@ fn main() {
                     let v = rt.block_on(node.compact(s));
                     meta_reply(v);
                 }
+                "compactbg" => {
+                    // run a deterministic compaction round in the background (so that it can be parked / overlapped)
+                    let sid: usize = parts.get(1).and_then(|x| x.parse().ok()).unwrap_or(0);
+                    let n2 = node.clone_for_bg();
+                    let slot = std::sync::Arc::clone(&bg);
+                    rt.spawn(async move {
+                        let v = n2.compact(sid).await;
+                        slot.lock().unwrap().insert(format!("compact-{sid}"), ("meta".to_string(), v.to_string().into_bytes()));
+                    });
+                    meta_reply(json!({"ok": true}));
+                }
                 "arm" => {
                     // @arm <point> <nth> <action> [arg=<n>]
                     let point = parts.get(1).copied().unwrap_or("");
